@@ -116,12 +116,12 @@ Definition rdec_is_finished (d : rdec) : bool :=
 
 (* the while loop of read_decode *)
 Fixpoint lzma2_read_loop (fuel : nat) (s : lzma2) (len : Z) (acc : list Z) : outcome (list Z * lzma2) :=
-  if len <=? 0 then Ok (rev acc, s) else
+  if len <=? 0 then Ok (frev acc, s) else
   match fuel with
   | O => Fuel
   | S f =>
       do s1 <- (if m_uncompressed_size s =? 0 then lzma2_chunk_header s else Ok s);
-      if m_end_reached s1 then Ok (rev acc, s1) else
+      if m_end_reached s1 then Ok (frev acc, s1) else
       let copy_size_max := Z.min (m_uncompressed_size s1) len in
       do s2 <-
         (if negb (m_is_lzma_chunk s1) then
@@ -181,9 +181,9 @@ Fixpoint lzma2_read_all (fuel : nat) (s : lzma2) (sizes all : list Z) (acc : lis
       let '(sz, rest) := match sizes with [] => (4096, all) | x :: r => (x, r) end in
       match lzma2_read s sz with
       | Ok (out, s1) =>
-          if (0 <? sz) && (zlen out =? 0) then Ok (rev acc, 0, s1)
+          if (0 <? sz) && (zlen out =? 0) then Ok (frev acc, 0, s1)
           else lzma2_read_all f s1 (match rest with [] => all | _ => rest end) all (rev_append out acc)
-      | Err e => Ok (rev acc, e, lzma2_set_error s e)
+      | Err e => Ok (frev acc, e, lzma2_set_error s e)
       | Panic e => Panic e
       | Fuel => Fuel
       end
